@@ -124,3 +124,11 @@ def times(dfc="STL25.01", start="none", model=None, obligation=None, **_):
   if tout < tin:
     return False, f"TCO {v[4:8]} before TCI {v[0:4]}: nothing demanded"
   return got != [(tin, tout)], f"TCI {v[0:4]} TCO {v[4:8]} at {rate} fps, start {start}: paragraphs {got}, required [{tin}, {tout})"
+
+
+def split(split_hex, single_hex, **_):
+  """metamorphic contract: the same text field split over extension blocks and in one block, natively"""
+  import rtc.c09 as R
+  d = R.split_difference(bytes.fromhex(split_hex), bytes.fromhex(single_hex))
+  head = f"split file {R.describe(bytes.fromhex(split_hex))}\nsingle-block file {R.describe(bytes.fromhex(single_hex))}"
+  return (d is not None), head + "\n" + (d or "both read identically")
